@@ -159,7 +159,7 @@ def kfTags (is : List Instruction) (t : Trip) (out : Sexp) : List String :=
     let reparseErr := piece out 3 == .list [.atom "reparse", .list [.atom "err"]]
     (if (reparseErr || piece out 5 == .list [.atom "texteq", .atom "false"]) && anyInstrs isRawCaptureI t.listing1
       then ["kf:C02/number-then-name-i"] else []) ++
-    (if reparseErr && anyInstrs hasKeywordQubit t.listing1 then ["kf:C02/qubit-variable-named-like-keyword"] else []) ++
+    (if anyInstrs hasKeywordQubit t.listing1 then ["kf:C02/qubit-variable-named-like-keyword"] else []) ++
     (if anyInstrs isCircuitWithMultiline t.listing1 then
       ["kf:C02/nested-definition-in-defcircuit"] else []) ++
     (if !reparseErr && piece out 5 == .list [.atom "texteq", .atom "true"] &&
